@@ -58,6 +58,7 @@ pub struct Session {
     pub st: FeState,
     /// messages put on the wire so far
     pub sent: usize,
+    pub server_tid: Arc<std::sync::atomic::AtomicI32>,
 }
 
 impl Session {
@@ -69,10 +70,13 @@ impl Session {
         let mut server = BackendReqHandler::from_stream(ss, rec.clone());
         let served = Arc::new(AtomicUsize::new(0));
         let server_result = Arc::new(Mutex::new(None));
-        let (s2, r2) = (served.clone(), server_result.clone());
+        let server_tid = Arc::new(std::sync::atomic::AtomicI32::new(0));
+        let (s2, r2, t2) = (served.clone(), server_result.clone(), server_tid.clone());
+        let conn = probe.try_clone().map_err(|e| e.to_string())?;
         let thread = std::thread::Builder::new()
             .name("c02_server".into())
             .spawn(move || {
+                t2.store(unsafe { libc::gettid() }, Ordering::SeqCst);
                 loop {
                     let r = server.handle_request();
                     s2.fetch_add(1, Ordering::SeqCst);
@@ -81,11 +85,13 @@ impl Session {
                         break;
                     }
                 }
-                drop(server); // daemon policy: the connection is closed
+                // daemon policy (vhost-user-backend/src/lib.rs): the connection is shut down when serving ends
+                let _ = conn.shutdown(std::net::Shutdown::Both);
+                drop(server);
             })
             .map_err(|e| e.to_string())?;
         let f = Frontend::from_stream(fs, neg.max_queue);
-        let mut s = Session { f, fsock, probe, rec, served, server_result, thread: Some(thread), st: FeState { max_queue: neg.max_queue, ..Default::default() }, sent: 0 };
+        let mut s = Session { f, fsock, probe, rec, served, server_result, thread: Some(thread), st: FeState { max_queue: neg.max_queue, ..Default::default() }, sent: 0, server_tid };
         // negotiation through the real endpoints
         let v = s.f.get_features().map_err(|e| format!("negotiation get_features: {e:?}"))?;
         s.sent += 1;
@@ -133,13 +139,18 @@ impl Session {
         self.server_result.lock().unwrap().clone()
     }
 
-    /// perform the call in a helper thread; Err("HANG") when it does not return while the scenario is quiescent
+    /// Perform the call in a helper thread.  The third result is true when the call never returned:
+    /// diagnosed by quiescence, not by a deadline -- the caller is asleep, the server thread is asleep
+    /// or gone, and no byte is in flight in either direction, over many consecutive looks.
     pub fn call(&mut self, op: &FeOp, lent: Lent) -> (Result<Ret, String>, Lent, bool) {
         let mut f = self.f.clone();
         let op2 = op.clone();
+        let caller_tid = Arc::new(std::sync::atomic::AtomicI32::new(0));
+        let ct = caller_tid.clone();
         let h = std::thread::Builder::new()
             .name("c02_caller".into())
             .spawn(move || {
+                ct.store(unsafe { libc::gettid() }, Ordering::SeqCst);
                 let mut lent = lent;
                 let r = perform(&mut f, &op2, &mut lent);
                 (r, lent)
@@ -147,8 +158,19 @@ impl Session {
             .unwrap();
         let t0 = Instant::now();
         let mut hung = false;
+        let mut quiet = 0u32;
         while !h.is_finished() {
-            if t0.elapsed() > BOUND {
+            let ctid = caller_tid.load(Ordering::SeqCst);
+            let stid = self.server_tid.load(Ordering::SeqCst);
+            let server_quiet = self.server_stopped().is_some() || (stid != 0 && matches!(crate::sched::thread_state(stid), Some('S') | None));
+            let caller_quiet = ctid != 0 && matches!(crate::sched::thread_state(ctid), Some('S'));
+            let wire_quiet = rawpeer::fionread(self.probe.as_raw_fd()) == 0 && rawpeer::fionread(self.fsock.as_raw_fd()) == 0;
+            if server_quiet && caller_quiet && wire_quiet {
+                quiet += 1;
+            } else {
+                quiet = 0;
+            }
+            if quiet > 400 || t0.elapsed() > BOUND * 3 {
                 hung = true;
                 let _ = self.fsock.shutdown(std::net::Shutdown::Both);
                 let t1 = Instant::now();
